@@ -1048,6 +1048,13 @@ def run_bright(spec, rec):
         a, s = f_bright_bc.get_bright_bc(mask[i], img[i], bg[i], bg_off=o)
         _cmp_arr(rec, f"bright_bc/single/{oc}/avg", a, e_bavg[i], "bright_bc_avg")
         _cmp_arr(rec, f"bright_bc/single/{oc}/sd", s, e_bsd[i], "bright_bc_sd")
+        # each value requested on its own (documented ret_data selections)
+        _cmp_arr(rec, f"bright_bc/single/{oc}/sd-only",
+                 f_bright_bc.get_bright_bc(mask[i], img[i], bg[i], bg_off=o,
+                                           ret_data="sd"), e_bsd[i], "bc sd only")
+        _cmp_arr(rec, f"bright_bc/single/{oc}/avg-only",
+                 f_bright_bc.get_bright_bc(mask[i], img[i], bg[i], bg_off=o,
+                                           ret_data="avg"), e_bavg[i], "bc avg only")
         perc_call("single", lambda: f_bright_perc.get_bright_perc(
             mask[i], img[i], bg[i], bg_off=o), e_p10[i], e_p90[i])
     # ret_data selection
@@ -1069,6 +1076,14 @@ def run_bright(spec, rec):
         a, s = f_bright_bc.get_bright_bc(mk, im, bk, bg_off=bg_off)
         _cmp_arr(rec, f"bright_bc/{form}/{oc}/avg", a, e_bavg, "bright_bc_avg")
         _cmp_arr(rec, f"bright_bc/{form}/{oc}/sd", s, e_bsd, "bright_bc_sd")
+        _cmp_arr(rec, f"bright_bc/{form}/{oc}/sd-only",
+                 f_bright_bc.get_bright_bc(mk, im, bk, bg_off=bg_off, ret_data="sd"),
+                 e_bsd, "bc sd only")
+        _cmp_arr(rec, f"bright_bc/{form}/{oc}/avg-only",
+                 f_bright_bc.get_bright_bc(mk, im, bk, bg_off=bg_off, ret_data="avg"),
+                 e_bavg, "bc avg only")
+        _cmp_arr(rec, f"bright/{form}/sd-only",
+                 f_bright.get_bright(mk, im, ret_data="sd"), e_sd, "bright sd only")
         perc_call("function-per-event-offsets" if per_event else form,
                   lambda: f_bright_perc.get_bright_perc(mk, im, bk, bg_off=bg_off),
                   e_p10, e_p90)
